@@ -286,6 +286,18 @@ func (m *monitor) block(b *sim.Block, res *sim.BlockRes, dump map[string][]byte)
 			}
 		}
 	}
+	if n := len(m.dueR[h]); n >= 2 {
+		m.feats["reward-withdrawals-of-several-owners-due-in-one-block"]++
+		for _, x := range m.dueR[h] {
+			if x.Sign() == 0 {
+				m.feats["zero-entry-among-several-due-in-one-block"]++
+				break
+			}
+		}
+	}
+	if len(m.dueU[h]) >= 2 {
+		m.feats["undelegations-of-several-owners-due-in-one-block"]++
+	}
 	for _, x := range m.dueR[h] {
 		m.paid.Add(m.paid, x)
 	}
@@ -439,7 +451,11 @@ func burst(u *hist.U, w *hist.World, v *dlgrw.View) []txgen.Tx {
 			}
 			txs = append(txs, tagged(txgen.Undelegate(usr, usr.Addr, txgen.Amt("OLT", amt), w.Fee, w.Memo()), "burst"))
 		case op == "withdraw" && rw.Sign() > 0:
-			txs = append(txs, tagged(txgen.DelegWithdrawRewards(usr, usr.Addr, txgen.Amt("OLT", frac(u, rw, 300, "wdfrac")), w.Fee, w.Memo()), "burst"))
+			amt := frac(u, rw, 300, "wdfrac")
+			if u.N(6, "wdtiny") == 0 {
+				amt = big.NewInt(int64(u.N(3, "wdtinyv")))
+			}
+			txs = append(txs, tagged(txgen.DelegWithdrawRewards(usr, usr.Addr, txgen.Amt("OLT", amt), w.Fee, w.Memo()), "burst"))
 		case op == "reinvest" && rw.Sign() > 0:
 			txs = append(txs, tagged(txgen.DelegReinvest(usr, usr.Addr, txgen.Amt("OLT", frac(u, rw, 300, "reifrac")), w.Fee, w.Memo()), "burst"))
 		default:
@@ -462,6 +478,32 @@ func exactOps(u *hist.U, w *hist.World, v *dlgrw.View) []txgen.Tx {
 	}
 	if x := v.RwBalance()[a]; x != nil && x.Sign() > 0 {
 		txs = append(txs, tagged(txgen.DelegWithdrawRewards(usr, usr.Addr, txgen.Amt("OLT", x), w.Fee, w.Memo()), "amt-all"))
+	}
+	return txs
+}
+
+// sameHeight makes several delegators undelegate / withdraw rewards in ONE block, some with the
+// smallest amounts (0, 1, 2 base units), so that several entries of different owners mature at
+// the same height and are paid by one walk over the pending list.
+func sameHeight(u *hist.U, w *hist.World, v *dlgrw.View) []txgen.Tx {
+	var txs []txgen.Tx
+	for i := 0; i < 4; i++ {
+		usr := w.G.U.Users[i]
+		a := usr.Addr.String()
+		if rw := v.RwBalance()[a]; rw != nil && rw.Sign() > 0 && u.N(4, "sh-wd") != 0 {
+			amt := frac(u, rw, 200, "sh-wdfrac")
+			if u.N(3, "sh-wdtiny") == 0 {
+				amt = big.NewInt(int64(u.N(3, "sh-wdtinyv")))
+			}
+			txs = append(txs, tagged(txgen.DelegWithdrawRewards(usr, usr.Addr, txgen.Amt("OLT", amt), w.Fee, w.Memo()), "same-height"))
+		}
+		if act := v.Active()[a]; act != nil && act.Sign() > 0 && u.N(3, "sh-und") == 0 {
+			amt := frac(u, act, 200, "sh-undfrac")
+			if u.N(3, "sh-undtiny") == 0 {
+				amt = big.NewInt(int64(u.Range(1, 3, "sh-undtinyv")))
+			}
+			txs = append(txs, tagged(txgen.Undelegate(usr, usr.Addr, txgen.Amt("OLT", amt), w.Fee, w.Memo()), "same-height"))
+		}
 	}
 	return txs
 }
@@ -514,6 +556,7 @@ func genParams(rt *rapid.T, h *run.H) (sim.Params, []dlgrw.PrePending) {
 func classify(f map[string]int, c *Case) (string, []string) {
 	var classes []string
 	for _, k := range []string{"matured-undelegation", "matured-reward-withdrawal", "two-ops-one-delegator-one-block", "two-undelegations-one-delegator-one-block",
+		"reward-withdrawals-of-several-owners-due-in-one-block", "zero-entry-among-several-due-in-one-block", "undelegations-of-several-owners-due-in-one-block",
 		"credit-in-a-block-with-own-traffic", "donation", "block-not-judged-exactly", "account-not-judged-exactly",
 		"ok:REWARDS_REINVEST_NETWORK_DELEGATE", "ok:REWARDS_WITHDRAW_NETWORK_DELEGATE", "ok:NETWORK_UNDELEGATE", "ok:ADD_NETWORK_DELEGATION"} {
 		if f[k] > 0 {
@@ -582,7 +625,11 @@ func TestC12(t *testing.T) {
 						txs = append(txs, g.DrawTxs(2)...)
 					}
 				case 8:
-					txs = exactOps(u, w, m.prev)
+					if u.N(2, "exact-or-same") == 0 {
+						txs = exactOps(u, w, m.prev)
+					} else {
+						txs = sameHeight(u, w, m.prev)
+					}
 				default:
 					txs = append(burst(u, w, m.prev), burst(u, w, m.prev)...)
 				}
